@@ -29,6 +29,7 @@ class Contract:
     terminates: str | None = None    # decreases expression for recursive functions
     replay: object = None            # callable(model_inputs) -> dict describing native outcome
     ghost_updates: dict = field(default_factory=dict)   # ghost lvalue -> expr, executed as ghost code at normal exit
+    native_ensures: list = field(default_factory=list)  # extra clauses evaluated only in the native replay
     opaque_raise: bool = False      # operations on values of unknown type (SUT values) may raise any exception
     at_yield: list = field(default_factory=list)        # context-manager generators: clauses that hold while the body runs
     closure: dict = field(default_factory=dict)         # nested functions: free variables of the enclosing def -> type
